@@ -461,7 +461,11 @@ Expected(zi) == Apply(Rows[zi].op, Rows[zi].lam, RowVals(Rows[zi]))
 
 (* design-level run: every defined row is evaluated by TLC (an evaluation error here means the    *)
 (* Def predicate is wrong and aborts the run), and the table is exported for the Go driver.        *)
-ExpStr == [zi \in 1..NRows |-> IF Rows[zi].def THEN ToString(Expected(zi)) ELSE "ERR"]
+(* Printed form of a value.  TLC prints a function in the order its domain happens to be stored;   *)
+(* comparing a value with itself makes TLC normalise it (deeply, in place), after which equal      *)
+(* values print equally -- PrintCanonical below checks exactly that on the whole table.             *)
+NStr(v) == IF v = v THEN ToString(v) ELSE "?"
+ExpStr == [zi \in 1..NRows |-> IF Rows[zi].def THEN NStr(Expected(zi)) ELSE "ERR"]
 Export ==
   /\ ndJsonSerialize("rows.ndjson",
         [zi \in 1..NRows |-> [id |-> zi, fam |-> Rows[zi].fam, op |-> Rows[zi].op, lam |-> Rows[zi].lam, cls |-> Rows[zi].cls,
@@ -477,13 +481,13 @@ CanonOps == {"TRUE", "FALSE", "BOOLEAN", "Zero", "Eq", "Neq", "Not", "Equiv", "P
              "Le", "Ge", "Lt", "Gt", "DotDot", "Div", "Mod", "Neg", "In", "NotIn", "Intersect", "Union",
              "SubsetEq", "SetMinus", "SUBSET", "UNION", "IsFiniteSet", "Cardinality", "InSeq", "Len", "DOMAIN",
              "Forall1", "Exists1", "Forall2", "Exists2", "Refine", "Compr1", "Compr2", "Cross2", "Cross3",
-             "MkFn1", "MkFn2", "RecSet2", "FnSet"}
+             "MkFn1", "MkFn2", "RecSet2", "FnSet", "AtAt", "MapsTo"}
 MinN(a, b) == IF a < b THEN a ELSE b
 VARIABLE row
 OInit == row \in 1..NRows
 ONext == UNCHANGED row
 PrintCanonical ==
-  (Rows[row].def /\ Rows[row].op \in CanonOps /\ Rows[row].cls # "set(int),set(str)") =>
+  (Rows[row].def /\ Rows[row].op \in CanonOps /\ Rows[row].cls \notin {"set(int),set(str)", "rec,rec"}) =>
      \A zj \in (row + 1)..MinN(row + 24, NRows) :
         (Rows[zj].fam = Rows[row].fam /\ Rows[zj].def) =>
            ((ExpStr[row] = ExpStr[zj]) <=> (Expected(row) = Expected(zj)))
